@@ -146,6 +146,13 @@ func sccpWith(fn *ssa.Function, env map[ssa.Value]lat, fieldEnv map[string]lat) 
 				continue
 			}
 			for _, in := range b.Instrs {
+				// an assumption about the value of this very instruction (a comparison taken as an atom)
+				if v, isV := in.(ssa.Value); isV && s.env != nil {
+					if l, has := s.env[v]; has {
+						set(v, l)
+						continue
+					}
+				}
 				switch x := in.(type) {
 				case *ssa.Phi:
 					l := lat{k: latTop}
